@@ -24,14 +24,34 @@ func (f *frame) call(site siteT, cc *ssa.CallCommon) Val {
 	} else {
 		fnVal = f.get(cc.Value)
 	}
-	f.atCallAsserts(cc, site.Pos())
-	return f.doCall(site, cc, fnVal, args, site.Pos())
+	matched := f.atCallAsserts(cc, site.Pos())
+	res := f.doCall(site, cc, fnVal, args, site.Pos())
+	for _, ac := range matched {
+		if len(ac.Assumes) == 0 {
+			continue
+		}
+		env := f.pointEnv(f.heap)
+		sig := cc.Signature()
+		if t, ok := res.(Tuple); ok {
+			for i, rv := range t {
+				env.vars[fmt.Sprintf("r%d", i)] = f.sval(rv, sig.Results().At(i).Type())
+			}
+		} else if sig.Results().Len() == 1 {
+			env.vars["r"] = f.sval(res, sig.Results().At(0).Type())
+			env.vars["r0"] = env.vars["r"]
+		}
+		for _, cl := range ac.Assumes {
+			f.c.assume(implies(f.guard, f.evalClause(env, cl)))
+			f.c.assumed[fmt.Sprintf("assumed at call %s#%d: %s", ac.Callee, ac.Ordinal, cl.Text)] = true
+		}
+	}
+	return res
 }
 
 // atCallAsserts generates the obligations of `at call NAME#k: assert E` clauses.
-func (f *frame) atCallAsserts(cc *ssa.CallCommon, pos token.Pos) {
+func (f *frame) atCallAsserts(cc *ssa.CallCommon, pos token.Pos) (matched []*AtCall) {
 	if !f.top || f.contract == nil || len(f.contract.AtCalls) == 0 {
-		return
+		return nil
 	}
 	name := ""
 	if cc.IsInvoke() {
@@ -40,13 +60,6 @@ func (f *frame) atCallAsserts(cc *ssa.CallCommon, pos token.Pos) {
 		name = funcKey(callee)
 	} else {
 		name = "func value " + cc.Value.Name()
-	}
-	for _, ac := range f.contract.AtCalls {
-		if !strings.HasSuffix(name, ac.Callee) {
-			continue
-		}
-		f.callOrd["at "+ac.Callee]++
-		// count once per distinct callee pattern
 	}
 	seen := map[string]bool{}
 	for _, ac := range f.contract.AtCalls {
@@ -60,32 +73,30 @@ func (f *frame) atCallAsserts(cc *ssa.CallCommon, pos token.Pos) {
 		if f.callOrd["atn "+ac.Callee] != ac.Ordinal {
 			continue
 		}
+		matched = append(matched, ac)
 		env := f.pointEnv(f.heap)
 		for i, cl := range ac.Asserts {
 			g := f.obligeClause("assert", fmt.Sprintf("%s#at:%s#%d.assert%d", shortFn(f.c.fn), ac.Callee, ac.Ordinal, i+1), env, cl, f.guard, f.pos(pos), false)
 			f.c.assume(implies(f.guard, g))
 		}
 	}
+	return matched
 }
 
 // pointEnv: spec environment at a program point; local names resolve to the last recorded value
 // of the variable that is available on this path.
 func (f *frame) pointEnv(heap *heapState) *specEnv {
 	env := f.baseEnv(heap)
+	at := f.cur
+	env.at = at
 	env.resolve = func(name string) (SVal, bool) {
 		if a, ok := f.debugAddr[name]; ok {
 			if have, ok := f.vals[a]; ok {
 				return f.sval(have, a.Type()), true
 			}
 		}
-		var found ssa.Value
-		for _, v := range f.debug[name] {
-			if _, have := f.vals[v]; have {
-				found = v
-			}
-		}
-		if found != nil {
-			return f.sval(f.vals[found], found.Type()), true
+		if found, ok := f.lookupLocal(name, at); ok {
+			return f.sval(f.get(found), found.Type()), true
 		}
 		return SVal{}, false
 	}
@@ -396,6 +407,8 @@ func (f *frame) callByContract(site siteT, ct *Contract, key string, sig *types.
 	c := f.c
 	if ct.Extern {
 		c.externs[key] = true
+	} else {
+		c.assumed["contract-of:"+key] = true
 	}
 	f.callOrd[key]++
 	ord := f.callOrd[key]
@@ -798,6 +811,21 @@ func (f *frame) builtin(site siteT, b *ssa.Builtin, cc *ssa.CallCommon, args []V
 			ds := arraySort(c.sortOf(mt.Key()), SBool)
 			c.heapSet(f.heap, dk, store(dom, m, Term{fmt.Sprintf("((as const %s) false)", ds), ds}))
 			c.heapSet(f.heap, lk, store(ln, m, tZero))
+			return Tuple{}
+		}
+		if st, ok := types.Unalias(argT(0)).Underlying().(*types.Slice); ok {
+			s := f.asTerm(args[0])
+			et := st.Elem()
+			key := elemKey(et)
+			arr := c.heapGet(f.heap, key, c.elemSort(et))
+			inner := arraySort(SInt, c.sortOf(et))
+			oldInner := sel(arr, sBase(s))
+			newInner := c.fresh("cleardata", inner)
+			c.counter["q"]++
+			qi := quote(fmt.Sprintf("q i %d", c.counter["q"]))
+			c.assume(Term{fmt.Sprintf("(forall ((%s Int)) (! (= (select %s %s) (ite (and (<= %s %s) (< %s (+ %s %s))) %s (select %s %s))) :pattern ((select %s %s))))",
+				qi, newInner.S, qi, sOff(s).S, qi, qi, sOff(s).S, sLen(s).S, c.zeroOf(et).S, oldInner.S, qi, newInner.S, qi), SBool})
+			c.heapSet(f.heap, key, store(arr, sBase(s), newInner))
 			return Tuple{}
 		}
 	}
